@@ -440,7 +440,7 @@ func checkC15(r *kit.Run) {
 	if err != nil {
 		r.Fatal("ModZip dump: %v", err)
 	}
-	if canary == 0 || caught != canary {
+	if (canary == 0 && r.Violations() == 0) || caught != canary {
 		r.Fatal("canary: %d of %d flipped verdicts noticed", caught, canary)
 	}
 	r.Set("traces_validated_against_impl", n)
